@@ -174,10 +174,54 @@ def run(prop, seed, budget, ctx):
         res = graphql.graphql_sync(sch, q); evaluations += 1
         want = [{"id": 1, "name": "bob", "email": "b@x"}, {"id": 2, "title": "spec"}]
         if res.errors or res.data[f"entities{i}"] != want: fail("execution-differs-from-serialize", info=info, query=q, errors=[str(e) for e in res.errors or []][:2], data=res.data)
+    # unions of objects used by several fields, unhashable defaults of input fields / parameters, flattened fields (one and
+    # two levels; the flattened class also queried on its own)
+    from apischema import serialize
+    fam2 = ["from dataclasses import dataclass, field", "from typing import *", "from apischema.metadata import flatten", ""]
+    n2 = 12 * budget
+    for i in range(n2):
+        fam2 += ["@dataclass", f"class UA{i}:", "    a: int = 1", "", "@dataclass", f"class UB{i}:", "    b: str = 'b'", "",
+                 "@dataclass", f"class UH{i}:", f"    u: Union[UA{i}, UB{i}]", f"    v: Optional[Union[UA{i}, UB{i}]] = None", "",
+                 f"def ua{i}() -> Union[UA{i}, UB{i}]:", f"    return UA{i}()", "",
+                 f"def ub{i}() -> List[Union[UA{i}, UB{i}]]:", f"    return [UB{i}(), UA{i}(3)]", "",
+                 f"def uh{i}() -> UH{i}:", f"    return UH{i}(UA{i}(2), UB{i}('z'))", "",
+                 "@dataclass", f"class DIn{i}:", "    xs: List[int] = field(default_factory=list)", f"    inner: UA{i} = field(default_factory=UA{i})", "    n: int = 0", "",
+                 f"def dq{i}(arg: DIn{i}, ys: List[int] = [1, 2]) -> int:", "    return len(arg.xs) + arg.inner.a * 10 + len(ys) * 100", "",
+                 "@dataclass", f"class Geo{i}:", "    lat: int = 5", "",
+                 "@dataclass", f"class Addr{i}:", "    street: str = 's'", f"    geo: Geo{i} = field(default_factory=Geo{i}, metadata=flatten)", "    zip_code: str = 'z'",
+                 f"    nested: Geo{i} = field(default_factory=lambda: Geo{i}(3))", "",
+                 "@dataclass", f"class Shop{i}:", "    name: str = 'n'", f"    addr: Addr{i} = field(default_factory=Addr{i}, metadata=flatten)", "    open: bool = True", "",
+                 f"def shop{i}() -> Shop{i}:", f"    return Shop{i}('shop', Addr{i}('high st', Geo{i}(7), 'zz'))", "",
+                 f"def addr{i}() -> Addr{i}:", f"    return Addr{i}('alone', Geo{i}(9), 'yy')", ""]
+    m2 = build_module(fam2, f"gqlfam2_{seed}")
+    for i in range(n2):
+        standalone = i % 3 == 0
+        info = {"family2": i, "flattened_class_also_standalone": standalone}
+        ops = [getattr(m2, f"{n}{i}") for n in ("ua", "ub", "uh", "dq", "shop")] + ([getattr(m2, f"addr{i}")] if standalone else [])
+        evaluations += 1; distinct.add(("family2", i))
+        try: sch = graphql_schema(query=ops)
+        except Exception as e:
+            fail("schema-generation-raises:" + type(e).__name__, info=info, msg=str(e)[:200]); continue
+        errs = graphql.validate_schema(sch)
+        if errs: fail("schema-does-not-pass-graphql-core-validation", info=info, errors=[str(e) for e in errs][:3])
+        checks = [
+            (f"{{ ua{i} {{ __typename ... on UA{i} {{ a }} }} ub{i} {{ __typename }} uh{i} {{ u {{ __typename }} v {{ ... on UB{i} {{ b }} }} }} }}",
+             {f"ua{i}": {"__typename": f"UA{i}", "a": 1}, f"ub{i}": [{"__typename": f"UB{i}"}, {"__typename": f"UA{i}"}], f"uh{i}": {"u": {"__typename": f"UA{i}"}, "v": {"b": "z"}}}),
+            (f"{{ dq{i}(arg: {{}}) }}", {f"dq{i}": 210}),
+            (f"{{ dq{i}(arg: {{xs: [1, 2, 3], inner: {{a: 2}}}}, ys: []) }}", {f"dq{i}": 23}),
+            (f"{{ shop{i} {{ name street lat zipCode open nested {{ lat }} }} }}", {f"shop{i}": {"name": "shop", "street": "high st", "lat": 7, "zipCode": "zz", "open": True, "nested": {"lat": 3}}}),
+        ] + ([(f"{{ addr{i} {{ street lat zipCode nested {{ lat }} }} }}", {f"addr{i}": {"street": "alone", "lat": 9, "zipCode": "yy", "nested": {"lat": 3}}})] if standalone else [])
+        for q, want in checks:
+            evaluations += 1
+            res = graphql.graphql_sync(sch, q)
+            if res.errors or res.data != want:
+                fail("execution-differs-from-serialize", info=dict(info, query_kind=q.split("{")[1].strip().split(" ")[0].rstrip("0123456789").split("(")[0]), query=q,
+                     errors=[str(e) for e in res.errors or []][:2], data=res.data, expected=want)
     return {"evaluations": evaluations, "distinct_nontrivial": len(distinct),
             "rule": "generated query resolvers: return types over primitives / Optional / List / enums / dataclasses nested to depth 3, one optional argument "
                     "(required int, defaulted int, Optional[int], List[int]); full-selection execution with valid and invalid arguments; plus families with a constrained NewType / input-object argument "
-                    "under three error_handler settings and an interface chain (interface <- interface <- class, interface <- plain class <- class); non-trivial = "
+                    "under three error_handler settings and an interface chain (interface <- interface <- class, interface <- plain class <- class); families with a union of objects "
+                    "used by three fields, input objects / parameters with list and dataclass defaults, one- and two-level flattened fields (the flattened class also queried alone in a third); non-trivial = "
                     "non-primitive return type or a family; distinct by (return type, argument)",
             "samples": samples, "histograms": dict(hist), "failures": failures}
 
